@@ -420,6 +420,13 @@ def case_oracle(case, res: ShardResult | None = None):
             if res is not None:
                 res.count("function:" + fname)
             if f is not None:
+                if deferred is not None and f.kind == "function-exception":
+                    # a slice with an array-valued bound (symbolic axis) can
+                    # be built but not lowered; the functions that lower are
+                    # outside this property for such graphs
+                    if res is not None:
+                        res.count("function_skipped_symbolic_slice")
+                    continue
                 return f, info
     return deferred, info
 
